@@ -21,8 +21,8 @@ ASSUMPTIONS = [
     '(what RFC6979(txid, …, prehashed=False) computes): a function of (key, digest) only; that distinct (key, digest) '
     'pairs give distinct nonces is HMAC pseudo-randomness and is not claimed',
     'modelled, not verified: SHA-256/HMAC transcriptions (validated against hashlib each run); public keys reach the '
-    'model as the point Key(bytes).public_point() returns for SEC-shaped input (33 bytes 02/03, 65 bytes 04) — other '
-    'key spellings belong to C04/C12; private keys outside [1, n-1] belong to C04; digests given as odd-length hex '
+    'model as SEC-shaped bytes (33 bytes 02/03, 65 bytes 04) read by Key(bytes) with the default strict=True (theorem '
+    'lib_pub_point_exact ties that reader to SEC 1 2.3.4); other key spellings belong to C04/C12; digests given as odd-length hex '
     'text are outside the model (bytes, lower-case hex, upper-case hex only)',
 ]
 RULE = ('boundary stream (keys, digests, nonces, r/s at 0,1,n-1,n,n+1,2^256-1, s around n/2 and 2^255 via solved '
@@ -416,9 +416,8 @@ def gen_cases(rng, tier):
         g.sign('sign_upper_hex', rand_key(rng), rand_digest(rng), None, 1, 'UK')
         g.sign('sign_upper_hex_explicit_k', rand_key(rng), rand_digest(rng), rand_key(rng), 1, 'UK')
     g.sign('sign_upper_hex', rand_key(rng), bytes(rng.randrange(256) for _ in range(40)), None, 1, 'UK')
-    # private keys outside [1, n-1] (C04's domain; compared with the model, no verdict here).  0 and n are left
-    # out: their public key is the point at infinity and Key.public() raises before any signing happens
-    for d in [N + 1, N + 2, (1 << 256) - 1]:
+    # private keys outside [1, n-1]: Key() refuses them (C04 fix 39fdc6f), so nothing is signed
+    for d in [0, N, N + 1, N + 2, (1 << 256) - 1]:
         g.sign('sign_key_outside', d, rand_digest(rng), None, 1, 'bK')
 
     # ---------------- verification: valid signatures from the independent signer, then mutations
@@ -496,6 +495,10 @@ def gen_cases(rng, tier):
             g.verify('verify_key_small_x_valid', z, der(r, r) + b'\x01', bytes([2 + (y & 1)]) + b32(x))
             g.verify('verify_key_x_plus_p_valid', z, der(r, r) + b'\x01', bytes([2 + (y & 1)]) + b32(x + P))
             g.verify('verify_key_x_plus_p_valid', z, der(r, r) + b'\x01', b'\x04' + b32(x + P) + b32(y))
+            # the tolerant key reading Key(.., strict=False): model correspondence only, no verdict
+            g.verify('verify_key_x_plus_p_nonstrict', z, der(r, r) + b'\x01', bytes([2 + (y & 1)]) + b32(x + P), 'bbL')
+            g.verify('verify_key_x_plus_p_nonstrict', z, der(r, r) + b'\x01', b'\x04' + b32(x + P) + b32(y), 'bbL')
+            g.verify('verify_key_small_x_nonstrict', z, der(r, r) + b'\x01', bytes([2 + (y & 1)]) + b32(x), 'hbL')
     # r, s at and beyond the range boundaries, both spellings
     d, z, r, s = valid()
     pk = pk_of(d)
@@ -565,12 +568,7 @@ def gen_cases(rng, tier):
 
 
 def same(c, io, mo):
-    m = mo.split('|')
-    if io == m[0]:
-        return True
-    # a key spelled with a coordinate >= p is built by Key(), which belongs to C04: if C04's repair makes Key()
-    # refuse that spelling, the refusal is accepted here (the model's class flag says the key is unreduced)
-    return len(m) > 1 and 'unred=1' in m[1] and io == 'ERR'
+    return io == mo.split('|')[0]
 
 
 def is_trivial(c, out):
@@ -585,7 +583,7 @@ def prop_check(c, out):
     if t[0] == 'sign':
         d, msg, k, ht = int(t[1]), unhx(t[2]), (None if t[3] == '-' else int(t[3])), int(t[4])
         if not (1 <= d < N):
-            return None                          # private key outside [1, n-1]: C04
+            return None if out == 'ERR' else 'signature made with a private key outside [1, n-1]'
         if not (0 <= ht <= 255):
             return None if out == 'ERR' else 'hash type %d outside a byte accepted' % ht
         dg = hashlib.sha256(hashlib.sha256(msg).digest()).digest() if len(msg) > 32 else msg
@@ -614,6 +612,8 @@ def prop_check(c, out):
         return None
     if t[0] == 'verify':
         dg, sig, pk = unhx(t[1]), unhx(t[2]), unhx(t[3])
+        if len(t) > 4 and t[4][2:] == 'L':
+            return None                          # Key(.., strict=False) is the documented tolerant mode
         exp = spec_verify(dg, sig, pk)
         if out not in ('1', '0', 'ERR'):
             return 'unexpected answer %r' % out[:80]
@@ -672,23 +672,10 @@ def _lax_der(c, io, mo):
     return sig is not None and len(sig) != 64 and sig[:1] == b'\x30' and not bip66(sig)
 
 
-def _unreduced_key(c, io, mo):
-    t = c.req.split(' ')
-    if t[0] != 'verify':
-        return False
-    pk = unhx(t[3])
-    if len(pk) == 33 and pk[0] in (2, 3):
-        return int.from_bytes(pk[1:], 'big') >= P
-    if len(pk) == 65 and pk[0] == 4:
-        return int.from_bytes(pk[1:33], 'big') >= P or int.from_bytes(pk[33:], 'big') >= P
-    return False
-
-
 KNOWN_CLASSES = {
     'der64_read_as_raw': _der64,
     'hex_case_changes_nonce': _upper_hex,
     'lax_der_accepted': _lax_der,
-    'pubkey_coordinate_unreduced': _unreduced_key,
 }
 
 
